@@ -1506,7 +1506,7 @@ class ContactHandler(Messenger, dbus.service.Object):
                 self._tx_tmp.total_length
             )
 
-        if self._tx_length == self._tx_tmp.total_length:
+        if self._tx_length and self._tx_length == self._tx_tmp.total_length:
             # Nothing more to send, just waiting on ACK
             return False
 
